@@ -1,7 +1,7 @@
 # Various node visitors to clean up nested function calls of various types.
 import ast
 import copy
-from typing import List, Tuple, Union, cast
+from typing import List, Optional, Tuple, Union, cast
 
 from func_adl.ast.call_stack import argument_stack, stack_frame
 from func_adl.ast.func_adl_ast_utils import (
@@ -442,12 +442,9 @@ class simplify_chained_calls(FuncADLNodeTransformer):
 
         Only works if index is a number
         """
-        # Get the value out - this is due to supporting python 3.7-3.9
         n = s.value
-        if n is None:
-            return ast.Subscript(v, s, ast.Load())  # type: ignore
-        assert isinstance(n, int), "Programming error: index is not an integer in tuple subscript"
-        if n >= len(v.elts):
+        assert type(n) is int, "Programming error: index is not an integer in tuple subscript"
+        if n >= len(v.elts) or n < -len(v.elts):
             raise FuncADLIndexError(
                 f"Attempt to access the {n}th element of a tuple only"
                 f" {len(v.elts)} values long."
@@ -462,9 +459,8 @@ class simplify_chained_calls(FuncADLNodeTransformer):
         Only works if index is a number
         """
         n = s.value
-        if n is None:
-            return ast.Subscript(v, s, ast.Load())  # type: ignore
-        if n >= len(v.elts):
+        assert type(n) is int, "Programming error: index is not an integer in list subscript"
+        if n >= len(v.elts) or n < -len(v.elts):
             raise FuncADLIndexError(
                 f"Attempt to access the {n}th element of a tuple"
                 f" only {len(v.elts)} values long."
@@ -476,18 +472,21 @@ class simplify_chained_calls(FuncADLNodeTransformer):
         """
         {t1, t2, t3...}[1] => t2
         """
-        sub = s.value
-        assert isinstance(sub, (str, int))
-        return self.visit_Subscript_Dict_with_value(v, sub)
+        found = self.visit_Subscript_Dict_with_value(v, s.value)
+        if found is None:
+            return ast.Subscript(v, s, ast.Load())
+        return found
 
-    def visit_Subscript_Dict_with_value(self, v: ast.Dict, s: Union[str, int]):
-        "Do the lookup for the dict"
+    def visit_Subscript_Dict_with_value(self, v: ast.Dict, s: Union[str, int]) -> Optional[ast.AST]:
+        "Do the lookup for the dict. Returns None if the dict literal does not define the key."
+        if not all(isinstance(k, ast.Constant) for k in v.keys):
+            return None
         for index, value in enumerate(v.keys):
             assert isinstance(value, ast.Constant)
-            if value.value == s:
+            if type(value.value) is type(s) and value.value == s:
                 return copy.deepcopy(v.values[index])
 
-        return ast.Subscript(v, s, ast.Load())  # type: ignore
+        return None
 
     def visit_Subscript_Of_First(self, first: ast.expr, s):
         """
@@ -516,12 +515,16 @@ class simplify_chained_calls(FuncADLNodeTransformer):
         """
         v = self.visit(node.value)
         s = self.visit(node.slice)
-        if type(v) is ast.Tuple:
-            return self.visit_Subscript_Tuple(v, s)
-        if type(v) is ast.List:
-            return self.visit_Subscript_List(v, s)
-        if type(v) is ast.Dict:
-            return self.visit_Subscript_Dict(v, s)
+        if isinstance(s, ast.Constant):
+            # Only a constant selector can be resolved against a literal. Anything else
+            # (a variable, a slice, -1 written as a unary minus, ...) is left as it is.
+            is_index = type(s.value) is int
+            if type(v) is ast.Tuple and is_index:
+                return self.visit_Subscript_Tuple(v, s)
+            if type(v) is ast.List and is_index:
+                return self.visit_Subscript_List(v, s)
+            if type(v) is ast.Dict and isinstance(s.value, (str, int)):
+                return self.visit_Subscript_Dict(v, s)
 
         if is_call_of(v, "First"):
             return self.visit_Subscript_Of_First(v.args[0], s)
@@ -561,6 +564,8 @@ class simplify_chained_calls(FuncADLNodeTransformer):
 
         visited_value = self.visit(node.value)
         if isinstance(visited_value, ast.Dict):
-            return self.visit_Subscript_Dict_with_value(visited_value, node.attr)
+            found = self.visit_Subscript_Dict_with_value(visited_value, node.attr)
+            if found is not None:
+                return found
 
         return ast.Attribute(value=visited_value, attr=node.attr, ctx=ast.Load())
